@@ -50,9 +50,21 @@ class Sampler(e2.Case):
         lat = w.array("lat", (2, 3), "float64", nonan=True)
         m = w.int("m", -30, 30)
         gal = self.vname == "plate_carree_galactic_sampler"
+        if gal and w.symbolic:
+            # the ICRS inputs of the Galactic variant are valid sky coordinates
+            for a in range(2):
+                for b in range(3):
+                    w.assume(z3.And(lat.get((a, b)).val >= -HALFPI, lat.get((a, b)).val <= HALFPI, lon.get((a, b)).val >= 0, lon.get((a, b)).val <= TWOPI))
         rot = {}
         saved = (acoord.ICRS, acoord.Galactic, aunits.rad)
-        if gal:
+        real_gal = gal and not w.symbolic
+        if real_gal:
+            # real world: the genuine astropy rotation is executed by the sampler; the reference rotation comes from an
+            # independent astropy call
+            from astropy.coordinates import SkyCoord
+            g = SkyCoord(lon * aunits.rad, lat * aunits.rad, frame="icrs").galactic
+            rot = dict(glon=g.l.rad, glat=g.b.rad, calls=None)
+        elif gal:
             glon = w.array("glon", (2, 3), "float64", nonan=True)
             glat = w.array("glat", (2, 3), "float64", nonan=True)
             calls = []
@@ -71,8 +83,11 @@ class Sampler(e2.Case):
                     o.b.rad = glat
                     return o
 
+            class FakeGalactic:
+                pass
+
             acoord.ICRS = FakeICRS
-            acoord.Galactic = "GALACTIC"
+            acoord.Galactic = FakeGalactic
             aunits.rad = 1
             rot = dict(glon=glon, glat=glat, calls=calls)
         try:
@@ -88,9 +103,12 @@ class Sampler(e2.Case):
             acoord.ICRS, acoord.Galactic, aunits.rad = saved
         res = dict(out=out, out2=out2, data=data, lon=lon, lat=lat, nx=nx, ny=ny, shape=tuple(out.shape), m=m)
         res.update(rot)
-        if gal:
-            res["rot_ok"] = len(rot["calls"]) >= 2 and rot["calls"][1] == "GALACTIC"
+        if gal and rot["calls"] is not None:
+            fr = rot["calls"][1] if len(rot["calls"]) >= 2 else None
+            res["rot_ok"] = fr is not None and (getattr(fr, "__name__", "") == "FakeGalactic" or type(fr).__name__ == "FakeGalactic")
             res["rot_a"], res["rot_b"] = rot["calls"][0]
+        elif gal:
+            res["rot_ok"], res["rot_a"], res["rot_b"] = True, lon, lat
         return res
 
     def claims(self, w, o):
